@@ -38,8 +38,8 @@ CHECKS = {
             "DESIGN.md §4 C06"),
     "C07": ("exploration",
             "runtime monitoring: set-difference oracle over unique line ids per outage schedule + drop counters, seeded scheduling delays injected at tag-guarded hook points, under -race",
-            "Up/down schedules of a loopback endpoint (outage before first connect, single/repeated outages, outage during unspooling, graceful and abortive closes) with traffic running across every transition against a real destination with spool=true; after the last recovery the backlog is awaited by bounded steps (spool backlog accessor + received set); the number of distinct lines never received must be <= slow_conn + slow_spool deltas, every complete received line must be a handed one, conn_down_no_spool must stay 0. Seeded 0-3 ms delays at the destination hook points force the conn-writer / redo-collector / spool-writer hand-over to interleave on every run.",
-            "Duplicates allowed, order not checked; outages are detected immediately on loopback so the >2x keep-safe-period case is not reproduced; backlog read through an overlay accessor.",
+            "Up/down schedules of a loopback endpoint (outage before first connect, single/repeated outages, outage during unspooling, graceful and abortive closes) with traffic running across every transition against a real destination with spool=true; after the last recovery the backlog is awaited by bounded steps (spool backlog accessor + received set); the number of distinct lines never received must be <= slow_conn + slow_spool deltas, every complete received line must be a handed one, conn_down_no_spool must stay 0. Seeded 0-3 ms delays at the destination hook points force the conn-writer / redo-collector / spool-writer hand-over to interleave on every run. Rotation scenarios: the endpoint stops reading shortly before the first rotation tick of the connection's keep-safe buffer, lines are handed off before and after the tick, the connection is reset: every one of them must reach the next incarnation.",
+            "Duplicates allowed, order not checked; outages are detected immediately on loopback so the >2x keep-safe-period case is not reproduced; backlog read through an overlay accessor; the keep-safe period is shortened from 10 s to 2 s through an accessor and a loss counts only if the process's own scheduling lag stayed below 400 ms during the case (else inconclusive).",
             "DESIGN.md §4 C07"),
     "C08": ("fault_enumeration",
             "runtime monitoring with fault enumeration: every crash-point hook firing of generated histories snapshots the spool directory; a child reopens it with the real code; oracle over delivered run vs E/H/Hs/S; real SIGKILL sample",
@@ -73,13 +73,13 @@ CHECKS = {
             "DESIGN.md §4 C13"),
     "C14": ("exploration",
             "runtime monitoring of the real relay binary (-race) as a child process: exit status + output scan + liveness probe after every hostile batch; every batch logged before it is sent",
-            "The real binary is started on generated TOML configurations (documented options with boundary values); once listening it receives batches of hostile bytes on the plain TCP, UDP and pickle ports, boundary / mutated / random admin commands on the TCP admin port and HTTP admin DELETEs, each followed by valid traffic exercising what was built and a `view` probe; any exit, Go panic or fatal error after the listeners are up (or a Go panic at start-up) is a violation whose witness is the configuration and the last batches. AMQP bodies go through the real consume loop in an in-process child. A universal negative: the evidence lists what was tried.",
+            "The real binary is started on generated TOML configurations (documented options with boundary values); once listening it receives batches of hostile bytes on the plain TCP, UDP and pickle ports, boundary / mutated / random admin commands on the TCP admin port and HTTP admin DELETEs, each followed by valid traffic exercising what was built and a `view` probe; any exit, Go panic or fatal error after the listeners are up (or a Go panic at start-up) is a violation whose witness is the configuration and the last batches; so is a race-detector report of the child in which one access is a Go map operation (the runtime kills the process when it notices one). Route deletions run while three connections stream traffic; periodic storms send valid lines on four connections at once across a second boundary. AMQP bodies go through the real consume loop in an in-process child. A universal negative: the evidence lists what was tried.",
             "Exit before listening with an error message = configuration rejected (allowed); buffer sizes kept below what the machine can allocate; no AMQP/Kafka/PubSub services here.",
             "DESIGN.md §4 C14"),
     "C15": ("exploration",
             "runtime monitoring: reference ring (cross-checked against a CPython transcription of carbon's ConsistentHashRing) compared with real consistentHashing routes through per-destination hand-off counters",
             "For generated destination sets of 2-12 (host, instance) pairs, in every listing order up to 4 destinations and several above, and along add/remove sequences, every sampled name (incl. names on tied 16-bit positions, on entry boundaries, on wrap-around) was handed to exactly one destination, the one carbon 0.9's ring picks; ownership did not depend on listing order; only keys landing on the added destination, or owned by the removed one, moved. Sampled, not exhaustive.",
-            "The Go reference ring is trusted as cross-checked each run against a CPython 3 transcription with emulated Python 2 None ordering; hosts are 127.x literals; destinations are permanently disconnected (spool=false) so hand-off counters are the observation; a white-box accessor adds volume but the counter path is verdict-bearing on its own.",
+            "The Go reference ring is trusted as cross-checked each run against a CPython 3 transcription with emulated Python 2 None ordering; hosts are 127.x literals and never-resolving names of 12-190 characters under .invalid; destinations are permanently disconnected (spool=false) so hand-off counters are the observation; a white-box accessor adds volume but the counter path is verdict-bearing on its own.",
             "DESIGN.md §4 C15"),
     "C16": ("exploration",
             "runtime monitoring: CPython pickle.loads of bytes from a real pickle-mode destination and from Pickle(); model-generated storage-schemas files with MetricData compared white-box (parseMetric + msgp round trip) and black-box (real grafanaNet route to a snappy/msgp-decoding httptest server); bad_pickle counter identity",
